@@ -3,9 +3,9 @@ package c14
 import (
 	"bytes"
 	"encoding"
-	"sort"
 	"fmt"
 	"reflect"
+	"sort"
 	"strings"
 	"testing"
 	"unicode/utf8"
@@ -221,6 +221,12 @@ func runRT(s RTScript) (bool, string, *vt.Finding) {
 		return false, key, nil
 	}
 	nonEmpty := false
+	var probe configopaque.String
+	if _, ok := any(&probe).(encoding.TextUnmarshaler); ok {
+		cRT.Class("unmarshaltext:implemented")
+	} else {
+		cRT.Class("unmarshaltext:not-implemented")
+	}
 	for _, sec := range s.S {
 		// conversions: the only sanctioned way to read the secret
 		v := configopaque.String(sec)
@@ -230,12 +236,9 @@ func runRT(s RTScript) (bool, string, *vt.Finding) {
 		// UnmarshalText, when the type has it
 		var u configopaque.String
 		if tu, ok := any(&u).(encoding.TextUnmarshaler); ok {
-			cRT.Class("unmarshaltext:implemented")
 			if err := tu.UnmarshalText(sec); err != nil || string(u) != string(sec) {
 				return true, key, vt.Failf("roundtrip/unmarshaltext", "UnmarshalText(%q) stored %q, err %v", sec, string(u), err)
 			}
-		} else {
-			cRT.Class("unmarshaltext:not-implemented")
 		}
 		if len(sec) > 0 {
 			nonEmpty = true
